@@ -10,6 +10,8 @@ import PydapModel.CE
 import PydapModel.TableVal
 import Proofs.Seq
 import Proofs.SeqEnc
+import PydapModel.SeqClient
+import Proofs.SeqClient
 namespace Pydap.C04
 open Pydap Pydap.IterData Pydap.Seq
 
@@ -154,6 +156,132 @@ theorem C04_clause_roundtrip (c : Cond)
   rw [splitClause_render c.id1 (CE.ofOp c.op) c.id2 h1 h2]
   cases c with
   | mk a o b => cases o <;> rfl
+
+
+/-! ### the client's lazy sequence operators and `open_url(url?ce)` (client model of C14 → text → server) -/
+section Operators
+open Pydap.SeqClient
+
+/-- the three backends serve the reference (the theorems above, one statement) -/
+theorem serve_ref (cmp : Op → A → A → Bool) (enc : A → List Char) (lit : List Char → Option A)
+    (henc : ∀ v, lit (enc v) = some v) (id : Name) (hhead : ∀ v, rsplitHead (enc v) ≠ id)
+    (names : List Name) (hnd : names.Nodup) (hid : id ∉ names) (hne : [] ∉ names)
+    (rows : List (List A)) (hrows : ∀ r ∈ rows, r.length = names.length) (bk : Backend)
+    (q : Request) (rcs : List (RCond A))
+    (hcl : q.clauses.mapM (resolve lit id names) = some rcs)
+    (hcols : ∀ k ∈ q.cols.getD names, k ∈ names) :
+    serve cmp enc lit bk id names rows q
+      = refEval cmp names ⟨rcs, .table (q.cols.getD names), q.range.toList⟩ rows := by
+  cases bk with
+  | numpy =>
+    have := C04_serve_numpy cmp lit id names hid hne rows hrows q rcs hcl hcols
+    simpa [serve] using this
+  | iterdata =>
+    exact C04_serve_lazy_full cmp enc lit henc id hhead names hnd hid hne rows hrows false q rcs hcl hcols
+  | csv =>
+    exact C04_serve_lazy_full cmp enc lit henc id hhead names hnd hid hne rows hrows true q rcs hcl hcols
+
+/-- the constraint of the URL given to `open_url` is one the theorem speaks about: its selection tokens
+    read as the clauses `rcs0` of the sequence, its columns (if any) are distinct columns of the sequence -/
+def UrlOk (lit : List Char → Option A) (id : Name) (names : List Name) (u : UrlCE) (rcs0 : List (RCond A)) : Prop :=
+  SelOk lit id names u.sel rcs0 ∧
+    ∀ cols r, u.proj = some (some cols, r) → cols ≠ [] ∧ cols.Nodup ∧ ∀ k ∈ cols, k ∈ names
+
+/-- **Constraint built with the client's lazy sequence operators = constraint written in the URL = the
+    reference.**  A dataset is opened with `open_url(url)` or `open_url(url?ce)` (`u`: the projection
+    and selection of the URL; object `r` of a well-formed client heap `h` is the sequence proxy
+    `add_dap2_proxies` installs).  Any chain `l` of the client operators is applied — filters written with
+    the comparison operators on column proxies (`seq[(seq.a > 1) & (seq.b <= seq.c)]`, all six operators,
+    column-vs-constant and column-vs-column), column lists, slices, integer indices, in any order and with
+    repetitions — and before every derivation an arbitrary history of other client events (C14's
+    `deriveAmid`) takes place.  Then the derived proxy issues a GET whose query text `q` (`SequenceProxy.url`,
+    with the record range on the first item: `s[a:s:b].f,s.i`) the server reads (`parse_ce`, hyperslab,
+    operator split) and answers (`Seq.serve`, any of the three backends) with exactly
+    `project cols (slice range (filter clauses rows))` for the accumulated columns (the last column list,
+    else those of the URL, else all), the accumulated clauses (those of the URL, then those of every
+    filter, in order) and the accumulated record range (`combine_slices` of the URL's range and the
+    slices, C03).  With `l = []` this is the statement for `open_url(url?ce)` itself.
+    Side conditions: names are free of the characters of the CE syntax; the accumulated range has
+    start ≥ 0, step ≥ 1 and a stop that is absent or ≥ 1 (C03: `stop = 0` prints as unbounded); the
+    source has at most `sys.maxsize` records (an absent stop travels as `MAXSIZE - 1`); an encoded value
+    reads back as itself, does not look like `id.column`, does not start with `=`/`~`, has no `&`. -/
+theorem C04_operators (cmp : Op → A → A → Bool) (enc : A → List Char) (lit : List Char → Option A)
+    (henc : ∀ v, lit (enc v) = some v) (id : Name) (hhead : ∀ v, rsplitHead (enc v) ≠ id)
+    (hst : ∀ v ch r, enc v = ch :: r → ch ≠ '=' ∧ ch ≠ '~')
+    (names : List Name) (hnd : names.Nodup) (hnn : names ≠ []) (hid : id ∉ names)
+    (hidok : NameOk id) (hnames : ∀ k ∈ names, NameOk k)
+    (rows : List (List A)) (hrows : ∀ r ∈ rows, r.length = names.length)
+    (hlen : (rows.length : Int) ≤ MAXSIZE) (bk : Backend)
+    (u : UrlCE) (rcs0 : List (RCond A)) (hu : UrlOk lit id names u rcs0)
+    (h : Proxy.Heap) (w : Proxy.WF h) (r : Nat) (base : Name) (σ : Proxy.Sess) (tm : Nat)
+    (hs : Proxy.specAt h r = some (Proxy.specOf (openTmpl id names u) (openProxy base σ tm u)))
+    (l : List (List Proxy.Ev × COp A))
+    (hops : ∀ x ∈ l, OpOk enc (openTmpl id names u).keys x.2)
+    (hr : RangeOk ((l.map (·.2)).foldl (accStep enc id) (openAcc id names u)).sl) :
+    let d := Proxy.deriveAmid h r (l.map fun x => (x.1, keyOf enc [id] (openProxy base σ tm u) x.2))
+    let a := (l.map (·.2)).foldl (accStep enc id) (openAcc id names u)
+    ∃ q, objQuery d.1 d.2 = some q ∧
+      serveQuery cmp enc lit bk id names rows q
+        = some (refEval cmp names
+            ⟨rcs0 ++ (l.map (·.2)).flatMap opRcs, .table (if a.sub then a.vis else names), rangeList a.sl⟩ rows) := by
+  intro d a
+  have hne : [] ∉ names := fun hm => (hnames [] hm).1 rfl
+  -- the template's children are columns of the sequence
+  have hkeys : ∀ k ∈ (openTmpl id names u).keys, k ∈ names := by
+    obtain ⟨proj, sel⟩ := u
+    cases proj with
+    | none => exact fun k hk => hk
+    | some pr =>
+      obtain ⟨c, rg⟩ := pr
+      cases c with
+      | none => exact fun k hk => hk
+      | some cols => exact fun k hk => (hu.2 cols rg rfl).2.2 k hk
+  have hkok : ∀ k ∈ (openTmpl id names u).keys, NameOk k := fun k hk => hnames k (hkeys k hk)
+  have hvis0 : VisOk (openTmpl id names u).keys (openAcc id names u) := by
+    obtain ⟨proj, sel⟩ := u
+    cases proj with
+    | none => intro hsub; cases hsub
+    | some pr =>
+      obtain ⟨c, rg⟩ := pr
+      cases c with
+      | none => intro _; exact ⟨hnn, hnd, fun k hk => hk⟩
+      | some cols => intro _; exact ⟨(hu.2 cols rg rfl).1, (hu.2 cols rg rfl).2.1, fun k hk => hk⟩
+  -- C14 (`deriveAmid_spec`, the lemma behind `C14_fresh_equiv`): the derived object is described by the pure
+  -- accumulation of the keys
+  have hchain := specChain_keys enc base id (openTmpl id names u).keys σ hidok hkok (openProxy base σ tm u)
+    (l.map (·.2)) (openAcc id names u) (fun op hop => by
+      obtain ⟨x, hx, rfl⟩ := List.mem_map.mp hop; exact hops x hx)
+  have hsnd : (l.map fun x => (x.1, keyOf enc [id] (openProxy base σ tm u) x.2)).map Prod.snd
+      = (l.map (·.2)).map (keyOf enc [id] (openProxy base σ tm u)) := by
+    simp [List.map_map, Function.comp_def]
+  have hspec := Proxy.deriveAmid_spec h w r _ _ (l.map fun x => (x.1, keyOf enc [id] (openProxy base σ tm u) x.2))
+    (by rw [hs, open_spec]) (by rw [hsnd]; exact hchain)
+  refine ⟨_, objQuery_of_specAt hspec, ?_⟩
+  -- the invariants of the accumulation, then the wire
+  obtain ⟨hsel, hvis⟩ := run_invariants enc lit id names (openTmpl id names u).keys hidok hnames hkeys henc hhead hst
+    (l.map (·.2)) (openAcc id names u) rcs0 (fun op hop => by
+      obtain ⟨x, hx, rfl⟩ := List.mem_map.mp hop; exact hops x hx) hu.1 hvis0
+  obtain ⟨conds, hres, hreq⟩ := query_request lit base id (openTmpl id names u).keys names σ a _ hidok hnames hkeys
+    hvis hsel hr
+  unfold serveQuery
+  cases hp : parseCE (specQuery (accSpec base id (openTmpl id names u).keys σ a)) with
+  | none => rw [hp] at hreq; simp at hreq
+  | some ps =>
+    obtain ⟨proj, sel⟩ := ps
+    rw [hp] at hreq
+    simp only [Option.bind_some] at hreq
+    simp only [hreq, Option.map_some, Option.some.injEq]
+    have hcols : ∀ k ∈ (if a.sub then some a.vis else none).getD names, k ∈ names := by
+      intro k hk
+      cases hsub : a.sub with
+      | false => simpa [hsub] using hk
+      | true => rw [hsub] at hk; exact hkeys k ((hvis hsub).2.2 k (by simpa using hk))
+    rw [serve_ref cmp enc lit henc id hhead names hnd hid hne rows hrows bk _ _ hres hcols]
+    simp only
+    rw [refEval_wire cmp names _ _ a.sl rows hlen]
+    cases hsub : a.sub <;> rfl
+
+end Operators
 
 /-! ### non-vacuity -/
 section NonVacuity
